@@ -141,7 +141,7 @@ RULE = ('unions with 1..3 fields over {u8, [u8;1], [u8;2], u16, [u8;4], u32, [u8
         '{all together, each alone}; values: every byte pattern for sizes 1 and 2, each byte over {00, 01, FF} above; Debug against '
         'debug_tuple(name).field(&bytes) / the bare slice in both formats, == against byte equality on all pairs of the pair domain '
         '(all 65 536 pairs for size 1), the recorded Hasher trace against hashing the byte slice, clone bitwise, Copy probed; Clone '
-        'on a union over ManuallyDrop<T> must not apply to a non-Copy T; Default initialises the designated field (also when the other fields' types have no Default); the `unsafe` marker: every marker-less form (bare, empty list in each delimiter, name-only, `unsafe` not first) of Debug / PartialEq / Hash on a union must be refused with a diagnostic')
+        'on a union over ManuallyDrop<T> must not apply to a non-Copy T; Default initialises the designated field (also when the types of the other fields have no Default); the `unsafe` marker: every marker-less form (bare, empty list in each delimiter, name-only, `unsafe` not first) of Debug / PartialEq / Hash on a union must be refused with a diagnostic')
 
 
 def reject_cases():
